@@ -195,6 +195,7 @@ class ShimEvent:
 
     def wait(self, timeout=None):
         self._ex().point('Event.wait', None, enabled_fn=lambda: self._flag)
+        self._ex().note('gate', getattr(self, 'tag', None))     # the waiting thread got through
         return self._flag
 
 
